@@ -78,7 +78,13 @@ fn coverage_events(glyphs: &[u16], ev: &mut Vec<Value>, rep: &mut Report) {
 }
 
 // ---------------------------------------------------------------------------------------------
-type Val = (i16, i16, i8); // (xAdvance, xPlacement, xAdvance device delta at 12 ppem); 0 = field absent
+/// value record: [xAdvance, xPlacement, xAdvance device, yAdvance, yPlacement, yAdvance device, xPlacement device,
+/// yPlacement device] (devices: the delta at 12 ppem); 0 = field absent
+type Val = [i16; 8];
+const fn v3(a: i16, b: i16, c: i16) -> Val {
+    [a, b, c, 0, 0, 0, 0, 0]
+}
+const ZERO: Val = [0; 8];
 
 #[derive(Clone)]
 struct Rules {
@@ -88,14 +94,30 @@ struct Rules {
 
 fn vrb(v: Val) -> ValueRecordBuilder {
     let mut b = ValueRecordBuilder::new();
-    if v.0 != 0 {
-        b = b.with_x_advance(v.0);
+    let dev = |d: i16| Device::new(12, 12, &[d as i8]);
+    if v[0] != 0 {
+        b = b.with_x_advance(v[0]);
     }
-    if v.1 != 0 {
-        b = b.with_x_placement(v.1);
+    if v[1] != 0 {
+        b = b.with_x_placement(v[1]);
     }
-    if v.2 != 0 {
-        b = b.with_x_advance_device(Device::new(12, 12, &[v.2]));
+    if v[2] != 0 {
+        b = b.with_x_advance_device(dev(v[2]));
+    }
+    if v[3] != 0 {
+        b = b.with_y_advance(v[3]);
+    }
+    if v[4] != 0 {
+        b = b.with_y_placement(v[4]);
+    }
+    if v[5] != 0 {
+        b = b.with_y_advance_device(dev(v[5]));
+    }
+    if v[6] != 0 {
+        b = b.with_x_placement_device(dev(v[6]));
+    }
+    if v[7] != 0 {
+        b = b.with_y_placement_device(dev(v[7]));
     }
     b
 }
@@ -130,7 +152,16 @@ fn compile(rules: &Rules) -> Result<Vec<u8>, String> {
 }
 
 fn val(v: &read_fonts::tables::gpos::ValueRecord, data: FontData) -> Result<Val, String> {
-    Ok((v.x_advance().unwrap_or(0), v.x_placement().unwrap_or(0), dev_value(v.x_advance_device(data))?))
+    Ok([
+        v.x_advance().unwrap_or(0),
+        v.x_placement().unwrap_or(0),
+        dev_value(v.x_advance_device(data))? as i16,
+        v.y_advance().unwrap_or(0),
+        v.y_placement().unwrap_or(0),
+        dev_value(v.y_advance_device(data))? as i16,
+        dev_value(v.x_placement_device(data))? as i16,
+        dev_value(v.y_placement_device(data))? as i16,
+    ])
 }
 
 /// the lookup's subtables, read with raw getters
@@ -185,7 +216,7 @@ fn walk(subs: &[RPairPos], g1: u16, g2: u16) -> Result<(Val, Val), String> {
             }
         }
     }
-    Ok(((0, 0, 0), (0, 0, 0)))
+    Ok((ZERO, ZERO))
 }
 
 fn expected(rules: &Rules, g1: u16, g2: u16) -> (Val, Val) {
@@ -195,7 +226,7 @@ fn expected(rules: &Rules, g1: u16, g2: u16) -> (Val, Val) {
     if let Some(r) = rules.classes.iter().find(|r| r.0.contains(&g1) && r.1.contains(&g2)) {
         return (r.2, r.3);
     }
-    ((0, 0, 0), (0, 0, 0))
+    (ZERO, ZERO)
 }
 
 fn subtable_json(s: &RPairPos) -> Result<Value, String> {
@@ -336,7 +367,7 @@ fn big_lookup_event(rules: &Rules, rng: &mut Rng, ev: &mut Vec<Value>, rep: &mut
                 return (rules.classes[*k].2, rules.classes[*k].3);
             }
         }
-        ((0, 0, 0), (0, 0, 0))
+        (ZERO, ZERO)
     };
     let mut check = |g1: u16, g2: u16, rep: &mut Report| {
         probed += 1;
@@ -651,22 +682,22 @@ fn big_class_rules(k: usize) -> Rules {
             if (i + j) % 3 == 0 {
                 let c1 = vec![1000 + i * 2, 1001 + i * 2];
                 let c2 = vec![5000 + j];
-                classes.push((c1, c2, (((i % 120) as i16) + 1, if k % 3 == 2 { (j % 50) as i16 } else { 0 }, 0), (0, 0, 0)));
+                classes.push((c1, c2, v3(((i % 120) as i16) + 1, if k % 3 == 2 { (j % 50) as i16 } else { 0 }, 0), ZERO));
             }
         }
     }
-    Rules { pairs: vec![(1000, 5000, (-9, 0, 0), (0, 0, 0))], classes }
+    Rules { pairs: vec![(1000, 5000, v3(-9, 0, 0), ZERO)], classes }
 }
 
 fn random_small_rules(rng: &mut Rng) -> Rules {
-    let vals: [Val; 8] = [(10, 0, 0), (-20, 0, 0), (0, 7, 0), (5, -5, 0), (300, 0, 0), (1, 1, 0), (10, 0, 3), (0, 0, -100)];
+    let vals: [Val; 12] = [v3(10, 0, 0), v3(-20, 0, 0), v3(0, 7, 0), v3(5, -5, 0), v3(300, 0, 0), v3(1, 1, 0), v3(10, 0, 3), v3(0, 0, -100), [0, 0, 0, 40, 0, 0, 0, 0], [0, 0, 0, 40, 0, -7, 0, 0], [0, 3, 0, 0, -4, 0, 5, -128], [10, 0, 0, 0, 0, 127, 0, 0]];
     let mut pairs = vec![];
     let mut seen = BTreeSet::new();
     for _ in 0..rng.below(8) {
         let (g1, g2) = (rng.below(6) as u16 + 2, rng.below(6) as u16 + 2);
         // a pair listed twice keeps its first value: list some twice on purpose
         let v1 = *rng.pick(&vals);
-        let v2 = if rng.chance(1, 3) { *rng.pick(&vals) } else { (0, 0, 0) };
+        let v2 = if rng.chance(1, 3) { *rng.pick(&vals) } else { ZERO };
         if seen.insert((g1, g2)) || rng.chance(1, 2) {
             pairs.push((g1, g2, v1, v2));
         }
@@ -678,7 +709,7 @@ fn random_small_rules(rng: &mut Rng) -> Rules {
     for (i, a) in c1s.iter().enumerate() {
         for (j, b) in c2s.iter().enumerate() {
             if rng.chance(1, 3) {
-                classes.push((a.clone(), b.clone(), *rng.pick(&vals), if (i + j) % 2 == 0 { (0, 0, 0) } else { *rng.pick(&vals) }));
+                classes.push((a.clone(), b.clone(), *rng.pick(&vals), if (i + j) % 2 == 0 { ZERO } else { *rng.pick(&vals) }));
             }
         }
     }
@@ -717,7 +748,7 @@ pub fn main(args: &[String]) {
             for k in 0..4u16 {
                 let c1: Vec<u16> = (100..140 + k).collect();
                 let c2: Vec<u16> = (200..203).collect();
-                let r = Rules { pairs: vec![(100, 200, (9, 0, 0), (0, 0, 0))], classes: vec![(c1, c2, (11 + k as i16, 0, 0), (0, 0, 0))] };
+                let r = Rules { pairs: vec![(100, 200, v3(9, 0, 0), ZERO)], classes: vec![(c1, c2, v3(11 + k as i16, 0, 0), ZERO)] };
                 small_lookup_event(&r, &mut rng, &mut ev, &mut rep);
             }
             // lookups of several times 64 KiB: the packer must split subtables / promote to extension
@@ -729,7 +760,7 @@ pub fn main(args: &[String]) {
                 for g1 in 0..n_first {
                     for k in 0..per {
                         let g2 = 5 + g1 % 7 + k * 2;
-                        pairs.push((g1 + 3, g2, ((g1 as i16 % 90) + 1, 0, if b % 4 == 2 && k % 40 == 7 { (g1 % 100) as i8 + 1 } else { 0 }), if k % 50 == 0 && b % 2 == 1 { (0, 3, 0) } else { (0, 0, 0) }));
+                        pairs.push((g1 + 3, g2, v3((g1 as i16 % 90) + 1, 0, if b % 4 == 2 && k % 40 == 7 { (g1 % 100) as i16 + 1 } else { 0 }), if k % 50 == 0 && b % 2 == 1 { v3(0, 3, 0) } else { ZERO }));
                     }
                 }
                 big_lookup_event(&Rules { pairs, classes: vec![] }, &mut rng, &mut ev, &mut rep);
